@@ -24,7 +24,8 @@ RULE = ("(a) mutation campaign, one process per mutant, ASan+UBSan build: corpus
         "content-file system call of test-rewrite / touch / sync (kill before, after, mid-write) with 1..7 copies: every copy "
         "under its final name is a complete valid content file (byte-identical to the old or new version where the new version is "
         "deterministic); plus the ordering spec per copy on the event log: create .tmp O_EXCL < writes < fsync < close < re-read to "
-        "EOF < rename; after success all copies are byte-identical. Non-trivial: mutant bytes differ from the original / the kill "
+        "EOF < rename; after success all copies are byte-identical. (c) faults inside the save (one write silently corrupted, ENOSPC on a write, "
+        "EIO on fsync, EIO on the re-read) on each copy in turn: the command must fail and every copy must stay a complete valid version. Non-trivial: mutant bytes differ from the original / the kill "
         "rule fired (INJ record).")
 
 VARINTS = [0, 1 << 7, 1 << 14, 1 << 21, 1 << 28, (1 << 32) - 1, (1 << 32), (1 << 35) + 5]
@@ -368,9 +369,85 @@ def run_atomic(case):
         a.cleanup()
 
 
+def run_savefault(case):
+    """Faults (not kills) inside save-verify-rename: a copy whose write was silently corrupted, cut short, or whose
+    re-read fails must never replace the old copy, whichever copy it is."""
+    seed, idx, ncopies, cmdname, tier = case
+    rng = random.Random("c09-savefault-%d-%d" % (seed, idx))
+    res = dict(key="savefault-%s-%d-%d" % (cmdname, ncopies, idx), violations=[], counters={}, nontrivial=False)
+    cfg = dict(nd=rng.randint(2, 3), nlev=rng.randint(1, 2), hashsize=16, ncontent=ncopies, content_on_data=rng.random() < 0.5)
+    a, fs = scen.make(rng, cfg, "c09f")
+    tpl = None
+    T = 1_600_000_000
+    try:
+        A.populate(fs, rng, nfiles=6, hostile=0.1, maxblocks=3)
+        fs.write(0, b"zero-ns-file", A.gen_bytes(rng, 1500), mtime_ns=(A.EPOCH0 - 500) * 1_000_000_000)
+        r = a.cmd("sync", shim={"time": T, "log": False})
+        if r.rc != 0:
+            raise scen.CaseError("setup sync failed")
+        cps = a.cpaths()
+        old = open(cps[0], "rb").read()
+        tpl = Template(a)
+        args = {"scrub": ["-p", "full"], "touch": [], "test-rewrite": []}[cmdname]
+        fired = 0
+        for ci, cp in enumerate(cps):
+            for fault in ("corrupt-first-write", "corrupt-last-write", "reread-eio", "write-enospc", "fsync-eio"):
+                tpl.restore()
+                tmp = cp + ".tmp"
+                if fault == "corrupt-first-write":
+                    plan = "path=%s:write:n=1:corrupt" % tmp
+                elif fault == "corrupt-last-write":
+                    plan = "path=%s:write:n=2:corrupt" % tmp
+                elif fault == "reread-eio":
+                    plan = "path=%s:read:n=1:err=EIO" % tmp
+                elif fault == "write-enospc":
+                    plan = "path=%s:write:n=1:err=ENOSPC" % tmp
+                else:
+                    plan = "path=%s:fsync:n=1:err=EIO" % tmp
+                r = a.cmd(cmdname, *args, shim={"time": T + 100, "plan": plan}, timeout=60)
+                inj = shimlog.injected(shimlog.parse(r.events))
+                if not inj:
+                    continue
+                fired += 1
+                replay = {"case": list(case), "copy": ci, "of": len(cps), "fault": fault, "cfg": cfg}
+                label = "%s with %s on copy %d of %d" % (cmdname, fault, ci + 1, len(cps))
+                if r.rc == 0:
+                    res["violations"].append(("save-fault-ignored:exit-ok", "%s: exit 0" % label, replay))
+                for cj, p in enumerate(cps):
+                    try:
+                        cur = open(p, "rb").read()
+                    except FileNotFoundError:
+                        res["violations"].append(("content-copy-missing-after-save-fault", "%s: copy %d vanished" % (label, cj + 1), replay))
+                        continue
+                    if cur == old:
+                        continue
+                    try:
+                        cnt.decode(cur)
+                    except cnt.DecodeError as ex:
+                        res["violations"].append(("damaged-copy-renamed-over-good-one", "%s: copy %d is neither the old version nor a valid content file: %s" % (label, cj + 1, ex), replay))
+                rs = a.cmd("status")
+                if rs.rc != 0:
+                    res["violations"].append(("no-content-loads-after-save-fault", "%s: status rc=%s %s" % (label, rs.rc, rs.err[-200:].decode("latin-1")), replay))
+                if _unmatched(res) >= 4:
+                    break
+            if _unmatched(res) >= 4:
+                break
+        res["counters"]["save_faults"] = fired
+        res["nontrivial"] = fired > 0
+        res["mutant_count"] = fired
+        res["sample"] = {"cmd": cmdname, "copies": ncopies, "faults_fired": fired}
+        return res
+    finally:
+        if tpl:
+            tpl.cleanup()
+        a.cleanup()
+
+
 def dispatch(case):
     if case[0] == "mut":
         return run_mutants(case[1:])
+    if case[0] == "savefault":
+        return run_savefault(case[1:])
     return run_atomic(case[1:])
 
 
@@ -379,7 +456,7 @@ def main(tier, seed, replay, jobs, scale):
     if replay:
         import json
         c = json.load(open(replay))["replay"]["case"]
-        cases = [tuple(c)] if c[0] in ("mut", "atomic") else [("mut",) + tuple(c)] if len(c) == 5 and isinstance(c[1], int) and isinstance(c[3], int) else [("atomic",) + tuple(c)]
+        cases = [tuple(c)] if c[0] in ("mut", "atomic", "savefault") else [("mut",) + tuple(c)] if len(c) == 5 and isinstance(c[1], int) and isinstance(c[3], int) else [("atomic",) + tuple(c)]
     else:
         nshapes = 3 if tier == "quick" else 12
         nshards = max(jobs, 14) if tier == "quick" else 2 * max(jobs, 14)
@@ -390,6 +467,10 @@ def main(tier, seed, replay, jobs, scale):
                 for rep in range(1 if tier == "quick" else 3):
                     cases.append(("atomic", seed, i, nc, cmdname, tier))
                     i += 1
+        for cmdname in ("scrub", "touch", "test-rewrite"):
+            for nc in ((2, 3, 7) if tier == "quick" else (1, 2, 3, 4, 5, 6, 7)):
+                cases.append(("savefault", seed, i, nc, cmdname, tier))
+                i += 1
     total = 0
     results = []
     for case, r in par.run_cases(dispatch, cases, jobs):
